@@ -451,7 +451,9 @@ impl LineProgram {
 
         if line_advance != 0 {
             let special_line = (line_advance as u64).wrapping_sub(line_base);
-            if special_line < line_range {
+            // The special opcode must also fit in a byte (only a concern for a
+            // `line_range` above 255 - OPCODE_BASE).
+            if special_line < line_range && special_base + special_line <= 255 {
                 special = special_base + special_line;
                 use_special = true;
             } else {
@@ -462,15 +464,19 @@ impl LineProgram {
 
         if op_advance != 0 {
             // Using ConstAddPc can save a byte.
-            let (special_op_advance, const_add_pc) = if special + op_advance * line_range <= 255 {
+            let (special_op_advance, const_add_pc) = if op_advance
+                .checked_mul(line_range)
+                .and_then(|x| x.checked_add(special))
+                .is_some_and(|x| x <= 255)
+            {
                 (op_advance, false)
             } else {
                 let op_range = (255 - special_base) / line_range;
                 (op_advance - op_range, true)
             };
 
-            let special_op = special_op_advance * line_range;
-            if special + special_op <= 255 {
+            let special_op = special_op_advance.saturating_mul(line_range);
+            if special.saturating_add(special_op) <= 255 {
                 special += special_op;
                 use_special = true;
                 if const_add_pc {
